@@ -69,6 +69,7 @@ type G struct {
 	meths    []*N
 	makers   []*N
 	usesDeep bool
+	usesTh   bool
 	id       int
 	budget   int
 	usesTr   bool
@@ -153,6 +154,7 @@ func Gen(t *rapid.T, p Profile) *Program {
 	}
 	prog.Methods = append(append(g.meths, g.makers...), gens...)
 	prog.UsesDeep = g.usesDeep
+	prog.UsesTh = g.usesTh
 	prog.UsesTr = g.usesTr
 	prog.Restricted = g.Restricted
 	prog.RestrictedPending = g.RestrictedPending
@@ -387,6 +389,9 @@ func (g *G) stmt(depth int) []*N {
 	if len(g.makers) > 0 {
 		kinds = append(kinds, "mkdecl")
 	}
+	if g.p.Throw && g.p.Methods && f.isFn && !f.noReturn && !f.isGen && depth < g.p.MaxDepth && f.inFinally == 0 && f.inHandler == 0 && f.noCalls == 0 {
+		kinds = append(kinds, "tailcatch", "tailcatch", "tailcatch", "tailcatch")
+	}
 	if g.p.Throw && g.p.Closures && g.p.ClosureBias > 1 && depth < g.p.MaxDepth && !f.isGen && f.inFinally == 0 && f.inHandler == 0 && f.noCalls == 0 {
 		kinds = append(kinds, "unwind", "unwind")
 	}
@@ -454,6 +459,33 @@ func (g *G) stmt(depth int) []*N {
 		return []*N{{K: "assign", S: ws[g.draw(len(ws), "fw")].name, L: "=", C: []*N{{K: "var", S: src.name, T: TFn0}}}}
 	case "unwind":
 		return g.unwind()
+	case "tailcatch":
+		// do return th(..) catch .. end: the call is in tail position of the function, but the handlers of the
+		// enclosing do still have to see what it throws
+		g.usesTh = true
+		g.names++
+		arg := &N{K: "int", I: int64(g.draw(6, "tcv")), T: TInt}
+		var argN *N = arg
+		if vs := g.vars(TInt, false); len(vs) > 0 && g.chance(3, "tcvar") {
+			argN = &N{K: "var", S: vs[g.draw(len(vs), "tcvv")].name, T: TInt}
+		}
+		ret := &N{K: "return", C: []*N{{K: "call", S: "th", T: TInt, C: []*N{{K: "int", I: int64(g.names), T: TInt}, argN}}}}
+		if g.chance(3, "tccond") {
+			if c := g.nonConstCond(); c != nil {
+				ret.C = append(ret.C, c)
+			}
+		}
+		cl := &N{K: "csym", S: ":a", C: []*N{{S: "a"}}}
+		if g.chance(3, "tcany") {
+			cl = &N{K: "cany", L: g.fresh("e")}
+			cl.S = cl.L
+		}
+		do := &N{K: "do", X: []*N{cl}, B: [][]*N{{g.trace(), ret}, {g.trace()}}}
+		if g.chance(3, "tcfin") {
+			do.I = 1
+			do.B = append(do.B, []*N{g.trace()})
+		}
+		return []*N{do}
 	case "mkdecl":
 		m := g.makers[g.draw(len(g.makers), "maker")]
 		call := &N{K: "call", S: m.S, T: m.T}
@@ -509,6 +541,13 @@ func (g *G) stmt(depth int) []*N {
 		return []*N{n}
 	case "return":
 		n := &N{K: "return", C: []*N{g.expr(TInt, 1)}}
+		if g.p.Throw && g.p.Methods && f.noCalls == 0 && g.chance(3, "rth") {
+			// explicit return of a call of a throwing bytecode method (a tail call site; inside a do body the
+			// enclosing catch / finally clauses still have to see the error)
+			g.usesTh = true
+			g.names++
+			n.C[0] = &N{K: "call", S: "th", T: TInt, C: []*N{{K: "int", I: int64(g.names), T: TInt}, g.expr(TInt, 1)}}
+		}
 		if g.chance(2, "rcond") {
 			if c := g.nonConstCond(); c != nil {
 				n.C = append(n.C, c)
